@@ -106,6 +106,8 @@ def unit(q, tol=10):
     nm = np.linalg.norm(q)
     if abs(nm) < tol * _eps:
         raise ValueError("cannot normalize (near) zero length quaternion")
+    if not np.isfinite(nm):
+        raise ValueError("cannot normalize quaternion with non-finite elements")
     return q / nm
 
 
